@@ -28,9 +28,9 @@ from .common import Check, MachineryError, SPECS, run_tlc, scratch
 
 PROP = 'C08'
 NONE = '-'
-INIT_FILE = {'ch': ['a', 'b', 'c'], 'def': 'a', 'x': False}
+INIT_FILE = {'ch': ['a', 'b', 'c'], 'def': 'a', 'x': False, 'lr': ['2', '5', '8']}
 DKEY = {'popt': 'popt', 'xopt': 'xopt', 'dl': 'default_library', 'subdl': 'sub:default_library', 'subpopt': 'sub:popt',
-        'subflag': 'sub:flag'}
+        'subflag': 'sub:flag', 'level': 'level'}
 
 PROBE = r'''
 import sys, json
@@ -48,6 +48,8 @@ print(json.dumps(out))
 def write_option_file(src: Path, name: str, f: T.Dict[str, T.Any]) -> None:
     txt = "option('popt', type: 'combo', choices: [%s], value: '%s')\n" % (', '.join("'%s'" % c for c in sorted(f['ch'])), f['def'])
     txt += "option('flag', type: 'boolean', value: false)\n"
+    # the declared range of `level`: the model says which of the probe values 2, 5, 8 it admits
+    txt += "option('level', type: 'integer', min: %d, max: %d, value: 5)\n" % (1 if '2' in f['lr'] else 4, 9 if '8' in f['lr'] else 6)
     if f['x']:
         txt += "option('xopt', type: 'string', value: 'xd')\n"
     (src / name).write_text(txt)
@@ -84,6 +86,8 @@ def edit_file(f: T.Dict[str, T.Any], e: T.Dict[str, T.Any]) -> T.Dict[str, T.Any
         f['def'] = e['def']
     elif e['t'] == 'default':
         f['def'] = e['def']
+    elif e['t'] == 'range':
+        f['lr'] = list(e['ch'])
     else:
         raise MachineryError('unknown edit ' + repr(e))
     return f
@@ -101,11 +105,37 @@ def run(cmd: T.List[str], cwd: Path, env: T.Dict[str, str]) -> T.Tuple[int, str]
     return p.returncode, p.stdout
 
 
+def recorded_cmdline(b: Path) -> T.Dict[str, str]:
+    """the [options] section of meson-private/cmd_line.txt (what --wipe replays), for the keys of the model"""
+    import configparser
+    out = {k: NONE for k in DKEY}
+    f = b / 'meson-private' / 'cmd_line.txt'
+    if not f.exists():
+        return out
+    cp = configparser.ConfigParser(delimiters=['='], interpolation=None)
+    cp.optionxform = str       # type: ignore[assignment,method-assign]
+    try:
+        cp.read(f, encoding='utf-8')
+        sec = dict(cp['options']) if 'options' in cp else {}
+    except configparser.Error:
+        return {k: 'unreadable' for k in DKEY}
+    back = {v: k for k, v in DKEY.items()}
+    for name, val in sec.items():
+        if name in back:
+            out[back[name]] = val
+        elif name != 'backend':
+            out.setdefault('other', '')
+            out['other'] = (out['other'] + ' ' + name + '=' + val).strip()
+    return out
+
+
 def observe(d: Path, env: T.Dict[str, str], out: str, configuring: bool) -> T.Dict[str, T.Any]:
     """project the persisted state of the build directory"""
     obs: T.Dict[str, T.Any] = {'skip': False, 'exists': False, 'v': NONE, 'ch': [], 'x': NONE, 'dl': NONE, 'subdl': NONE,
-                               'sp': NONE, 'sf': NONE, 'mv': NONE, 'msp': NONE, 'msubdl': NONE, 'msf': NONE}
+                               'sp': NONE, 'sf': NONE, 'lv': NONE, 'cmd': {k: NONE for k in DKEY}, 'mv': NONE, 'msp': NONE, 'msubdl': NONE,
+                               'msf': NONE}
     b = d / 'build'
+    obs['cmd'] = recorded_cmdline(b)
     if not (b / 'meson-private' / 'coredata.dat').exists():
         return obs
     obs['exists'] = True
@@ -120,6 +150,7 @@ def observe(d: Path, env: T.Dict[str, str], out: str, configuring: bool) -> T.Di
     obs['ch'] = sorted(intro['popt']['choices'])
     obs['x'] = intro['xopt']['value'] if 'xopt' in intro else NONE
     obs['dl'] = intro['default_library']['value']
+    obs['lv'] = str(intro['level']['value'])
     p = subprocess.run([common.PYTHON, '-c', PROBE, str(common.REPO), str(b), 'sub:default_library', 'sub:popt', 'sub:flag'],
                        cwd=d, env=env, stdout=subprocess.PIPE, stderr=subprocess.PIPE, text=True, timeout=900)
     if p.returncode != 0:
@@ -168,6 +199,8 @@ def replay_history(job: T.Tuple[str, T.List[T.Dict[str, T.Any]], int]) -> T.Dict
                     flag.unlink()
             elif a == 'Configure':
                 rc, out = run(meson + ['configure', 'build'] + flags, d, env)
+            elif a == 'ConfigureBad':
+                rc, out = run(meson + ['configure', 'build'] + flags, d, env)
             elif a == 'ConfigureFail':
                 rc, out = run(meson + ['configure', 'build'] + flags + ['-Dpopt=zz'], d, env)
             elif a == 'ConfigureU':
@@ -189,7 +222,7 @@ def replay_history(job: T.Tuple[str, T.List[T.Dict[str, T.Any]], int]) -> T.Dict
                 raise MachineryError('unknown action ' + a)
             if a == 'Edit':
                 obs = {'skip': True, 'exists': False, 'v': NONE, 'ch': [], 'x': NONE, 'dl': NONE, 'subdl': NONE, 'sp': NONE,
-                       'sf': NONE, 'mv': NONE, 'msp': NONE, 'msubdl': NONE, 'msf': NONE}
+                       'sf': NONE, 'lv': NONE, 'cmd': {k: NONE for k in DKEY}, 'mv': NONE, 'msp': NONE, 'msubdl': NONE, 'msf': NONE}
             else:
                 obs = observe(d, env, out, configuring and rc == 0)
             if 'Traceback (most recent call last)' in out:
@@ -217,7 +250,7 @@ def norm_event(e: T.Dict[str, T.Any]) -> T.Dict[str, T.Any]:
 def hist_id(h: T.List[T.Dict[str, T.Any]]) -> str:
     def one(e: T.Dict[str, T.Any]) -> str:
         if e['a'] == 'Edit':
-            return 'Edit:' + e['e']['t'] + (''.join(e['e']['ch']) + '/' + e['e']['def'] if e['e']['t'] in ('choices', 'default') else '')
+            return 'Edit:' + e['e']['t'] + (''.join(e['e']['ch']) + '/' + e['e']['def'] if e['e']['t'] in ('choices', 'default', 'range') else '')
         if e['a'] == 'ConfigureU':
             return 'U:' + e['k']
         return e['a'] + ''.join(f':{k}={v}' for k, v in e['D'])
@@ -353,7 +386,7 @@ def main(chk: Check) -> None:
             chk.nontriv(c['id'])
     for c in done[:: max(1, len(done) // 4)][:4]:
         chk.sample({'history': c['id'], 'steps': [{'a': e['a'], 'D': e['D'], 'rc': e['rc'],
-                                                    'obs': {k: e['obs'][k] for k in ('exists', 'v', 'ch', 'x', 'dl', 'subdl', 'sp', 'sf')}}
+                                                    'obs': {k: e['obs'][k] for k in ('exists', 'v', 'ch', 'x', 'dl', 'subdl', 'sp', 'sf', 'lv', 'cmd')}}
                                                    for e in c['ev']]})
     judge(chk, done, 'A')
     chk.extra['histories_replayed'] = len(done)
@@ -362,8 +395,9 @@ def main(chk: Check) -> None:
     chk.exhaustive = not quick
     chk.assumptions += [
         'one project shape: top-level combo option popt (choices edited), string option xopt (added/removed), boolean option '
-        'flag (never changed), subproject options popt and flag with yield:true, builtin default_library with a '
-        'sub:default_library override',
+        'flag (never changed), integer option level (min/max edited: raise min, lower max, both), subproject options popt '
+        'and flag with yield:true, builtin default_library with a sub:default_library override',
+        'the recorded command line is observed as the [options] section of meson-private/cmd_line.txt (the file --wipe replays)',
         'a -D value is generated only when it is valid both for the stored and for the edited option file (meson applies -D '
         'of --reconfigure before it re-reads the option file); --wipe only when the recorded command line still fits the option file',
         '-U is generated for sub:popt, sub:flag and for an existing sub:default_library override only (-U of a missing override is an error)',
